@@ -266,7 +266,7 @@ def report(prop,tier,seed,repo,meta,results,extras,known,lock,t0,verbose):
 
 GLOBAL_TRUSTED=["pyvc symbolic executor and VC generator (/verif/pyvc) - mitigated by native sampling of every contract and the mutation self-test",
   "z3 5.1.0 (cvc5 1.0.3 for z3's unknowns)","CPython 3.12 int semantics = mathematical integers (lemma schemas cross-checked natively each run)",
-  "lemma schemas of pyvc/theory.py (ground instances only; cross-checked natively on ~3.5e5 operands per run; not proved in a proof assistant)"]
+  "lemma schemas of pyvc/theory.py (ground instances only; cross-checked natively on ~3.5e5 operands per run; arithmetic schemas and non-negative bit-wise schemas proved in Lean (lemmas/Lemmas.lean), the field-insert / clear-mask schemas and negative operands are not)"]
 GLOBAL_ASSUMPTIONS=["memory exhaustion / recursion limits ignored","operands are of the types listed in the contract views (int, bool, Bits, None, slice, plain object)",
   "strings are opaque: message texts of exceptions are not verified"]
 
